@@ -1134,6 +1134,17 @@ fn case_x(ctx: &mut Ctx, idx: usize, fmts: &[FmtSpec], nest: bool, resp: &Value)
             }
             s.push_str(&format!(" P {}", enc(&canon(&after))));
             check_preserved(ctx, idx, resp, &after);
+            // the same members one after the other, each judged on the response IT was handed: what an earlier
+            // member reported (csv_error, csv_error_2, …) is information a later member must not replace
+            let mut running = resp.clone();
+            for f in fmts {
+                let before = running.clone();
+                let real = f.build();
+                if catch_unwind(AssertUnwindSafe(|| real.format_response(&mut running))).is_err() {
+                    break;
+                }
+                check_preserved(ctx, idx, &before, &running);
+            }
             s
         }
     };
